@@ -364,10 +364,13 @@ start:
 		return
 	}
 
-	// If v.maxVersion(0) is non-negative, then we loaded API
-	// versions. If the version for this request is negative, we
-	// know the broker cannot handle this request.
-	if v.maxVersion(0) >= 0 && v.maxVersion(req.Key()) < 0 {
+	// If we have any versions, then we loaded API versions (the map
+	// is empty only if we are pinned pre 0.10.0 and never issued
+	// ApiVersions). If the version for this request is negative, we
+	// know the broker cannot handle this request. We do not key
+	// "loaded" off of Produce: a broker that does not advertise key 0
+	// (a KRaft controller) still advertises what it can serve.
+	if len(v.maxVers) > 0 && v.maxVersion(req.Key()) < 0 {
 		pr.promise(nil, errBrokerTooOld)
 		return
 	}
